@@ -378,6 +378,12 @@ func (pConn *PFCPConn) handleSessionModificationRequest(msg message.Message) (me
 		addQERs = append(addQERs, q)
 	}
 
+	// A Remove IE that cannot be carried out makes the request fail: find that out before the
+	// created and updated rules are written to the datapath, not after.
+	if err := session.checkRemovals(smreq); err != nil {
+		return sendError(err)
+	}
+
 	session.MarkSessionQer(session.qers)
 	// FIXME: since PacketForwardingRules doesn't store pointers,
 	//  we must also mark session QERs in addQERs.
@@ -484,6 +490,66 @@ func (pConn *PFCPConn) handleSessionModificationRequest(msg message.Message) (me
 	)
 
 	return smres, nil
+}
+
+// checkRemovals reports the first Remove IE of the request that cannot be carried out on the
+// session: a rule ID that does not decode, a rule the session does not have, a rule named twice.
+func (s *PFCPSession) checkRemovals(smreq *message.SessionModificationRequest) error {
+	pdrs := make(map[uint32]bool, len(s.pdrs))
+	for _, p := range s.pdrs {
+		pdrs[p.pdrID] = true
+	}
+
+	for _, rPDR := range smreq.RemovePDR {
+		pdrID, err := rPDR.PDRID()
+		if err != nil {
+			return err
+		}
+
+		if !pdrs[uint32(pdrID)] {
+			return ErrNotFound("PDR")
+		}
+
+		delete(pdrs, uint32(pdrID))
+	}
+
+	fars := make(map[uint32]bool, len(s.fars))
+	for _, f := range s.fars {
+		fars[f.farID] = true
+	}
+
+	for _, rFAR := range smreq.RemoveFAR {
+		farID, err := rFAR.FARID()
+		if err != nil {
+			return err
+		}
+
+		if !fars[farID] {
+			return ErrNotFound("FAR")
+		}
+
+		delete(fars, farID)
+	}
+
+	qers := make(map[uint32]bool, len(s.qers))
+	for _, q := range s.qers {
+		qers[q.qerID] = true
+	}
+
+	for _, rQER := range smreq.RemoveQER {
+		qerID, err := rQER.QERID()
+		if err != nil {
+			return err
+		}
+
+		if !qers[qerID] {
+			return ErrNotFound("QER")
+		}
+
+		delete(qers, qerID)
+	}
+
+	return nil
 }
 
 func (pConn *PFCPConn) handleSessionDeletionRequest(msg message.Message) (message.Message, error) {
